@@ -97,7 +97,7 @@ type Result struct {
 	Extra      map[string]interface{} `json:"extra,omitempty"`
 }
 
-const keyCap = 200000
+const keyCap = 100000 // per process; distinct counts are therefore lower bounds in very long runs
 
 // Main is the entry point of a harness subcommand: `run` or `replay`.
 func Main(property string, args []string, fn RunFn) int {
@@ -210,7 +210,7 @@ func RunRange(cfg *Config, fn RunFn, from, to, maxShrink int, wall time.Duration
 		}
 		for _, k := range o.Keys {
 			if len(keys) < keyCap {
-				keys[k] = true
+				keys[Hash(k)] = true // hashed: the merged result stays small in the thorough tier
 			}
 		}
 		for k, v := range o.Faults {
